@@ -90,9 +90,21 @@ def run_scenario(disps, body, spawned, cancel_at, outer_state=True):
                     await asyncio.sleep(0.2)
                     raise RuntimeError("child failed")
                 else:
-                    await asyncio.sleep(1000)
+                    try:
+                        await asyncio.sleep(1000)
+                    except asyncio.CancelledError:
+                        if kind == "failcancel":
+                            raise RuntimeError("cleanup of a spawned task failed") from None    # fails only when it is cancelled
+                        raise
             finally:
                 log.append(("child-end", kind))
+                if kind == "respawn":
+                    # cleanup that spawns a follow-up task while the scope is being torn down: the group either
+                    # takes it (and cancels it) or refuses it - it must never become a task outside the scope
+                    try:
+                        obs["tasks"].append(ctx.spawn(child, "block"))
+                    except RuntimeError:
+                        log.append(("respawn-refused",))
 
         async def block():
             obs["before"] = context_now()
@@ -174,7 +186,8 @@ def scenarios(level=1):
          [("none", "fail"), ("state", "slow-fail")], [("none", "slow-fail"), ("none", "fail"), ("none", "slow-ok")]]
     for ds in dsets:
         for body in ("return", "raise", "base", "sleep"):
-            for spawned in ([], ["done"], ["block"], ["fail", "block"]):
+            for spawned in ([[], ["done"], ["block"], ["fail", "block"], ["respawn"], ["fail", "respawn"]] +
+                            ([["failcancel"]] if os.environ.get("C07_CHECK_FAILING_MEMBER") == "1" else [])):
                 for cancel_at in (None, 0.5, 1.2, 1.7, 2.6, 5.5):
                     if body != "sleep" and cancel_at is not None and cancel_at > 3.0:
                         continue
